@@ -54,7 +54,9 @@ TYPE = [None,
         {"base": [["hit", "hit"]], "opts": [], "exclude": False}, {"base": [["hit", "hold"]], "opts": ["MIRROR"], "exclude": False},
         {"base": [["hold", "tail"]], "opts": ["ANY_ORDER"], "exclude": False}, {"base": [["hit", "tail"]], "opts": [], "exclude": True}]
 TYPE3 = [None, {"base": [["hit", "hit", "hold"]], "opts": ["ANY_ORDER"], "exclude": False},
-         {"base": [["hit", "hold", "tail"]], "opts": ["MIRROR"], "exclude": False}]
+         {"base": [["hit", "hold", "tail"]], "opts": ["MIRROR"], "exclude": False},
+         {"base": [["hit", "hold", "tail"]], "opts": ["ANY_ORDER"], "exclude": False},      # three distinct kinds: all six orders
+         {"base": [["hold", "tail", "hit"]], "opts": ["ANY_ORDER"], "exclude": True}]
 
 
 def _mk_filters(size, ch, co, ty):
@@ -105,6 +107,11 @@ def exec_ptn(scn):
             p = Pattern(cols=[notes[i]["c"] for i in order], offsets=[notes[i]["t"] * U for i in order],
                         types=[T[notes[i]["k"]] for i in order])
         rec["notes"] = _rows(p.df.to_records(index=False))
+        if scn.get("regroup"):
+            # history: the same object was grouped before with other parameters (the other jack rule, then another window)
+            p.group(v_window=scn["v"] * U, h_window=h, avoid_jack=not scn["jack"])
+            p.group(v_window=(scn["v"] + 1) * U, h_window=h, avoid_jack=scn["jack"])
+            rec["cls"] += ".regrouped"
         groups = p.group(v_window=scn["v"] * U, h_window=h, avoid_jack=scn["jack"])
         rec["groups"] = [_rows(g) for g in groups]
     except Exception as e:
@@ -161,5 +168,5 @@ def random_scenarios(n, tier):
         notes = sorted(({"t": r.choice([0, 0.5, 1, 1.5, 2, 3, 4, 6]), "c": r.randint(0, 3), "k": r.choice(["hit", "hit", "hold", "tail"])}
                         for _ in range(r.randint(1, 9))), key=lambda x: x["t"])
         out.append({"id": f"r{i}", "notes": notes, "v": r.choice([0, 0.5, 1, 2]), "h": r.choice([-1, 0, 1, 2]),
-                    "jack": r.random() < 0.5, "filters": pick_filters(r, tier), "via_lists": i % 4 == 0})
+                    "jack": r.random() < 0.5, "filters": pick_filters(r, tier), "via_lists": i % 4 == 0, "regroup": i % 3 == 1})
     return out
